@@ -122,8 +122,32 @@ def _ident(name, lhs, rhs, function, where):
     if not ok: o.meta = dict(residual=str(d))
     return o
 
+F_SPL = 'atsim/potentials/spline/__init__.py'
+def spline_obligations(prop='C07'):
+    """splined potentials: value, deriv and deriv2 take the same region of the same three callables (shared with C10), and the exponential
+    spline's offered derivatives are the derivatives of the callable that gives its value"""
+    import props.C10 as C10
+    out = []
+    for o in C10.region_obligations():
+        o.name = prop + o.name[3:]; out.append(o)
+    g = B.undetermined('g'); x = B.sym('r')
+    env = {'r': x, 'self._spline_callable': g, 'self._spline_callable.deriv': g.deriv, 'self._spline_callable.deriv2': g.deriv2}
+    try:
+        e = B.paths(F_SPL, 'Exp_Spline.__call__', env)
+        for meth, n in (('deriv', 1), ('deriv2', 2)):
+            ps = B.paths(F_SPL, 'Exp_Spline.' + meth, env)
+            ok = len(e) == 1 and len(ps) == 1 and not e[0][0] and not ps[0][0]
+            want = sp.diff(e[0][1], x, n) if ok else None
+            # g.deriv / g.deriv2 are the first / second derivative of g (the exp_spline form: C07's own identities for _exp_spline)
+            res = sp.simplify((ps[0][1] - want).doit().subs({g.deriv(x): sp.diff(g(x), x), g.deriv2(x): sp.diff(g(x), x, 2)}).doit()) if ok else None
+            o = B.static_obligation('%s/spline/__init__.py::Exp_Spline.%s/is-derivative-%d-of-__call__' % (prop, meth, n), bool(ok and res == 0), 'Exp_Spline.' + meth, F_SPL, 'residual: %s' % str(res)[:200])
+            o.kind = 'identity'; o.backend = 'sympy-exact (undetermined spline callable)'; out.append(o)
+    except Exception as ex:
+        o = B.static_obligation('%s/spline/__init__.py::Exp_Spline/translate' % prop, False, 'Exp_Spline', F_SPL, str(ex)); o.result = 'unknown'; out.append(o)
+    return out
+
 def lemmas():
-    out = form_obligations() + combinator_obligations()
+    out = form_obligations() + combinator_obligations() + spline_obligations()
     # closure: exact(a) and exact(b) => exact(combinator(a, b)): by the three identities above with deriv_a = a', deriv2_a = a''
     # (gradient contract: analytic derivative when offered, verified by Engine A below); any nesting depth by induction.
     return out
